@@ -155,6 +155,13 @@ PLACE: Dict[str, Tuple[str, ...]] = {
     'for': ('for _i in (1,):\n', '    '),
     'class-if': ('class K:\n    if True:\n', '        '),
     'class-try': ('class K:\n    try:\n', '        ', '    finally:\n        pass\n'),
+    # bodies that run on import although they are not the first suite of their statement
+    'try-else': ('try:\n    pass\nexcept ImportError:\n    pass\nelse:\n', '    '),
+    'try-finally': ('try:\n    pass\nfinally:\n', '    '),
+    'for-else': ('for _j in ():\n    pass\nelse:\n', '    '),
+    'while-else': ('while False:\n    pass\nelse:\n', '    '),
+    'main-else': ('if __name__ == "__main__":\n    pass\nelse:\n', '    '),
+    'class-try-else': ('class K:\n    try:\n        pass\n    except ImportError:\n        pass\n    else:\n', '        '),
     'func': ('def outer():\n', '    '),
     'main': ('if __name__ == "__main__":\n', '    '),
     'main-reversed': ('if "__main__" == __name__:\n', '    '),
@@ -197,7 +204,7 @@ def pykind(ns: Any, name: str) -> Optional[Tuple[str, Optional[str], bool]]:
 
 
 def locate(pm: Any, m: Any, pl: str) -> Tuple[Any, Any]:
-    if pl in ('class', 'class-if', 'class-try'):
+    if pl in ('class', 'class-if', 'class-try', 'class-try-else'):
         return pm.K, m.contents['K']
     if pl == 'nestedclass':
         return pm.K.N, m.contents['K'].contents['N']
